@@ -366,7 +366,7 @@ var retypes = []struct {
 	}},
 }
 
-var bcastKinds = []string{"chat", "chat", "chat", "agent", "agent", "console", "listener", ""}
+var bcastKinds = []string{"chat", "chat", "chat", "chat", "agent", "console", "listener", ""}
 var followKinds = []string{"task", "chat", "listener-add", "listener-remove", "mark", "gate", "task-ts"}
 
 func pickTiming(r *rand.Rand, s *Spec) {
@@ -412,7 +412,7 @@ func randPrintable(r *rand.Rand, n int) string {
 
 // coreOpCases enumerates the classes the property text lists; r only picks which operator a
 // case is derived from.
-func coreOpCases(r *rand.Rand) []Spec {
+func coreOpCases(r *rand.Rand, thorough bool) []Spec {
 	var out []Spec
 	pick := func() string { return operators[1+r.Intn(len(operators)-1)] } // bob..dave (alice is the observer)
 	valid := func(u string) *jnode { return loginTree(u, digestOf(opPassword(u))) }
@@ -438,9 +438,22 @@ func coreOpCases(r *rand.Rand) []Spec {
 		del(t, name)
 		out = append(out, opCase("del-wrongpw:"+name, u, t, ""))
 	}
-	// retypings
+	// retypings: the whole path x kind matrix in the thorough tier; in the quick tier the six
+	// fields the property names x {number, list, object, null, bool, string} plus Head/Body
+	// (the rest of the matrix is reached by the random cases)
+	quickKinds := map[string]bool{"number": true, "list": true, "object": true, "null": true, "bool": true, "string": true}
+	quickPaths := map[string]bool{"Head": true, "Body": true}
+	for _, f := range opCoreFields {
+		quickPaths[f] = true
+	}
 	for _, name := range opPathNames {
 		for _, rt := range retypes {
+			if !thorough && !(quickPaths[name] && quickKinds[rt.name]) {
+				continue
+			}
+			if !thorough && (name == "Head" || name == "Body") && rt.name != "null" && rt.name != "list" && rt.name != "number" {
+				continue
+			}
 			u := pick()
 			t := valid(u)
 			set(t, name, rt.mk(get(t, name)))
@@ -788,7 +801,7 @@ func buildCases(seed int64, thorough bool) []Spec {
 	if thorough {
 		opTotal, svcTotal = 20000, 2000
 	}
-	ops := coreOpCases(r)
+	ops := coreOpCases(r, thorough)
 	for len(ops) < opTotal {
 		ops = append(ops, randomOpCase(r))
 	}
@@ -812,8 +825,24 @@ func buildCases(seed int64, thorough bool) []Spec {
 	// make sure every broadcast kind is placed in every phase by some core case even in
 	// the quick tier, and that the first cases of each shard are not all of one class:
 	// interleave service cases evenly and shuffle deterministically.
-	all := append(ops, svcs...)
-	r.Shuffle(len(all), func(i, j int) { all[i], all[j] = all[j], all[i] })
+	rest := append(ops, svcs...)
+	r.Shuffle(len(rest), func(i, j int) { rest[i], rest[j] = rest[j], rest[i] })
+	// concurrent-phase cases, spread so that every shard (index % shards) gets its share:
+	// final positions are multiples of an odd number, which walk through all residues of 16
+	nStorm := 16
+	if thorough {
+		nStorm = 96
+	}
+	gap := (len(rest)/nStorm - 1) &^ 1 // even: final positions are multiples of the odd gap+1
+	var all []Spec
+	placed := 0
+	for i := range rest {
+		if placed < nStorm && i == placed*gap {
+			all = append(all, Spec{EP: "storm", Class: fmt.Sprintf("storm:%d", placed), Conn: "storm", Expect: "may", Seed: r.Int63()})
+			placed++
+		}
+		all = append(all, rest[i])
+	}
 	for i := range all {
 		all[i].ID = i
 	}
